@@ -119,6 +119,8 @@ def _models(tier):
             m[name] = [[3, 3]]
         elif name in ("p0_3_ov", "t1_3", "t2_3"):
             m[name] = [[2, 2], [3, 3]]
+            if name == "t2_3" and tier == "thorough":
+                m[name].append([4, 4])
         else:
             m[name] = [[2, 2], [3, 3]] if tier == "thorough" or \
                 name in ("t2_1", "t1_2", "t2_2", "t2sq", "t2eri_4") \
@@ -462,6 +464,11 @@ def run_case(case):
     target = gen.syms(tuple(distinct))
     results = []
     for no, nv in _models(_TIER[0])[name]:
+        if full and name == "t2_3" and _TIER[0] == "quick" and \
+                (no, nv) != (2, 2):
+            continue    # the fully expanded t2_3 in (3,3): thorough tier
+        if (no, nv) == (4, 4) and name == "t2_3" and full:
+            continue    # (4,4): once expanded form only (sees the quadruples)
         key = repr((case, (no, nv)))
         base = {"key": key, "transitions": 1}
         info = (f"{name}.expand_itmd(indices='{idx}', fully_expand={full}) "
